@@ -474,6 +474,64 @@ pub fn rule_yaml(u: &Value, r: &Value) -> Value {
   }
 }
 
+/// the order in which the deserializer collects the keys of one rule object
+const KEY_ORDER: [&str; 13] = ["pattern", "kind", "regex", "nthChild", "range", "inside", "has", "precedes", "follows", "all", "any", "not", "matches"];
+
+/// like rule_yaml, but a conjunction (`all`) whose members are rule objects with pairwise different keys, listed in the
+/// order the deserializer collects them, is written as one rule object holding all those keys
+pub fn rule_yaml_obj(u: &Value, r: &Value) -> Value {
+  let op = r["op"].as_str().unwrap();
+  match op {
+    "all" => {
+      let subs: Vec<Value> = r["subs"].as_array().unwrap().iter().map(|s| rule_yaml_obj(u, s)).collect();
+      let mut keys: Vec<&String> = vec![];
+      let mut ok = true;
+      for s in &subs {
+        for k in s.as_object().unwrap().keys() {
+          if keys.contains(&k) || !KEY_ORDER.contains(&k.as_str()) {
+            ok = false;
+          }
+          keys.push(k);
+        }
+      }
+      let rank = |k: &String| KEY_ORDER.iter().position(|x| x == k).unwrap_or(99);
+      if ok && keys.windows(2).all(|w| rank(w[0]) < rank(w[1])) {
+        let mut m = Map::new();
+        for s in &subs {
+          for (k, v) in s.as_object().unwrap() {
+            m.insert(k.clone(), v.clone());
+          }
+        }
+        Value::Object(m)
+      } else {
+        json!({"all": subs})
+      }
+    }
+    "any" => json!({"any": r["subs"].as_array().unwrap().iter().map(|s| rule_yaml_obj(u, s)).collect::<Vec<_>>()}),
+    "not" => json!({"not": rule_yaml_obj(u, &r["sub"])}),
+    "nth" if r["of"]["op"] != "none" => {
+      let mut o = rule_yaml(u, r);
+      o["nthChild"]["ofRule"] = rule_yaml_obj(u, &r["of"]);
+      o
+    }
+    "inside" | "has" | "precedes" | "follows" => {
+      // the relation's own keys (stopBy, field) live in the same object as the sub-rule's keys
+      let std = rule_yaml(u, r);
+      let mut inner = rule_yaml_obj(u, &r["sub"]);
+      if !inner.is_object() || inner.as_object().unwrap().keys().any(|k| k == "stopBy" || k == "field") {
+        return std;
+      }
+      for k in ["stopBy", "field"] {
+        if let Some(v) = std[op].get(k) {
+          inner[k] = v.clone();
+        }
+      }
+      json!({op: inner})
+    }
+    _ => rule_yaml(u, r),
+  }
+}
+
 fn hits_of(v: &[bool]) -> Vec<usize> {
   v.iter().enumerate().filter(|(_, b)| **b).map(|(i, _)| i + 1).collect()
 }
@@ -504,9 +562,9 @@ pub fn drive(universe_file: &str, vectors: &str, out: &str) {
     let u = &us[ui - 1];
     let tree = &u["trees"][ti - 1];
     let l = util::lang(u["lang"].as_str().unwrap());
-    let rule_json = rule_yaml(u, &v["rule"]);
+    let std_json = rule_yaml(u, &v["rule"]);
+    let obj_json = rule_yaml_obj(u, &v["rule"]);
     let utils_json: Map<String, Value> = v["utils"].as_object().map(|m| m.iter().map(|(k, r)| (k.clone(), rule_yaml(u, r))).collect()).unwrap_or_default();
-    let yaml_rule = serde_json::to_string(&rule_json).unwrap(); // JSON is YAML
     let mut gdocs = vec![];
     global_docs(u, &v["rule"], &mut gdocs);
     if v["shadow"] == true {
@@ -520,7 +578,15 @@ pub fn drive(universe_file: &str, vectors: &str, out: &str) {
     let g = l.ast_grep(src);
     let p = proj::project(&g.root(), true);
     let nodes = all_nodes(&g);
-    let mut rec = json!({"id": format!("r{i}"), "u": ui, "t": ti, "lang": u["lang"], "rule": v["rule"], "utils": v["utils"], "shadow": v["shadow"] == true,
+    // the rule as written by rule_yaml, and - when it differs - with every conjunction whose members have different keys
+    // written as ONE rule object with several keys (`{kind: K, has: {..}, all: [..], any: [..]}`), which means the same
+    let mut spellings = vec![("", std_json.clone())];
+    if obj_json != std_json {
+      spellings.push(("o", obj_json));
+    }
+    for (sfx, rule_json) in spellings {
+    let yaml_rule = serde_json::to_string(&rule_json).unwrap(); // JSON is YAML
+    let mut rec = json!({"id": format!("r{i}{sfx}"), "u": ui, "t": ti, "lang": u["lang"], "rule": v["rule"], "utils": v["utils"], "shadow": v["shadow"] == true,
       "yaml": rule_json, "src": src, "load": "", "error": "", "hits": [], "envs": [], "panic": false,
       "pk": {"any": true, "set": []}, "cfg": {"ok": false}});
     // (1) the bare Rule through DeserializeEnv (no potential-kinds requirement)
@@ -582,7 +648,7 @@ pub fn drive(universe_file: &str, vectors: &str, out: &str) {
           ids
         }));
         let (cv, _, _) = per_node(&c.matcher, &nodes, &p);
-        if let Ok(alone) = &fa {
+        if let (Ok(alone), true) = (&fa, sfx.is_empty()) {
           together.entry((ui, ti)).or_default().push((format!("r{i}"), full.clone(), gdocs.clone(), alone.clone()));
         }
         rec["cfg"] = json!({"ok": true, "hits": hits_of(&cv),
@@ -595,6 +661,7 @@ pub fn drive(universe_file: &str, vectors: &str, out: &str) {
       }
     }
     w.put(&rec);
+    }
   }
   // many rules scanned together: windows of up to four rule files over the same tree, some of them with a fix, in
   // both modes of CombinedScan::scan; every member must report what it reports alone
